@@ -24,7 +24,8 @@ from fractions import Fraction
 import numpy as np
 
 from harness.c16 import (cq, cqlist, chdr, prove_static_local, tri_from_json, tri_to_json, val_from_json,
-                         val_to_json, respell_meta, rebuild_dates, meta_key, flatten_alike_metas, hash_colliding_metas)
+                         val_to_json, respell_meta, rebuild_dates, meta_key, flatten_alike_metas, hash_colliding_metas,
+                         big_cells, coord_key)
 from harness.common import COQ, REPO, parse_coq_eval
 from harness.coqterm import NotRepresentable, ccell, cerr, cstr, canon_meta
 from harness.gen import Gen, add_m, month_end
@@ -1145,6 +1146,9 @@ def run(ctx):
         ctx.prove(ctx.build / "C18_fields.v", timeout=300)
 
     # ---------------------------------------------------------------- cases
+    EARLY_SMALL.clear()
+    for kind_, case_ in early_small_cases().items():
+        EARLY_SMALL[kind_] = (case_, RUNNERS[kind_](case_))
     N = {"convert": 90, "disagg": 110, "aq": 90, "premium": 300} if ctx.quick else \
         {"convert": 1200, "disagg": 1200, "aq": 1000, "premium": 5000}
     gens = {"convert": gen_convert, "disagg": gen_disagg, "aq": gen_aq, "premium": gen_premium}
@@ -1218,6 +1222,7 @@ def run(ctx):
     probe_pre1970(ctx)
     probe_pre1970_disagg(ctx)
     hardening(ctx)
+    large_stream(ctx)
     probe_candidates(ctx)
 
     # ---------------------------------------------------------------- verdicts
@@ -1318,6 +1323,144 @@ def policy_period_failures(out):
         if c.period_start.day != 1 or c.period_end != month_end(y, m):
             bad.append(f"policy period {c.period_start}..{c.period_end} is not a twelve-month year")
     return sorted(set(bad))
+
+
+# ------------------------------------------------------------------------------------------------
+# LARGE stream (family Q of notes/HARDENING.md): big inputs, Python-side oracles only (no Coq literals: the theorems are
+# size-independent, the correspondence samples small cases).  Cases are rebuilt from their names in a replay.
+def large_case(name, quick=True):
+    from bermuda import CumulativeCell, Metadata, Triangle
+
+    k2 = 1 if quick else 2
+    with warnings.catch_warnings():
+        warnings.simplefilter("ignore")
+        if name == "convert-2140-cells-small-trailing-slices":
+            # slices of 1024 / 1056 cells followed (in sorted order) by slices of 40 and 20 cells, each in its own currency
+            cells = big_cells(n_slices=4, n_periods=33 * k2, n_evals=32, slice_sizes=[1024 * k2, 1056 * k2, 40, 20],
+                              fields=("paid_loss", "reported_claims"), vseed=1)
+            cur = {"S000": "EUR", "S001": "GBP", "S002": "JPY", "S003": "CHF"}
+            cells = [c.replace(metadata=dataclasses.replace(c.metadata, currency=cur[c.metadata.country])) for c in cells]
+            return dict(kind="convert", tri=Triangle(cells), target="USD",
+                        rates={"EUR": 1.25, "GBP": 1.5, "JPY": 0.0078125, "CHF": 2.0})
+        if name == "convert-2300-single-cell-slices":
+            # more than 2100 distinct Metadata in one process, currencies cycling, values beyond 2**53 for a count field
+            n = 2300 * k2
+            cells = big_cells(n_slices=n, n_periods=1, n_evals=1, fields=("incurred_loss",), vseed=2)
+            curs = ["EUR", "USD", "GBP"]
+            cells = [c.replace(metadata=dataclasses.replace(c.metadata, currency=curs[i % 3], details={"id": 2**53 + 1 + i}),
+                               values={**c.values, "reported_claims": 2**53 + 1 + 2 * i}) for i, c in enumerate(cells)]
+            return dict(kind="convert", tri=Triangle(cells), target="USD", rates={"EUR": 1.25, "GBP": 0.5})
+        if name == "aq-70-evaluation-dates":
+            # monthly evaluation dates: more than 64 distinct diagonals, rows of 70 cells
+            rng = np.random.RandomState(3)
+            cells = []
+            evs = [month_end(*add_m(2001, 1, 2 + k)) for k in range(70 * k2)]          # monthly, from the first quarter's end
+            for m in (Metadata(risk_basis="Accident", country="S000"), Metadata(risk_basis="Accident", country="S001")):
+                for qi in range(8):
+                    y, mo = add_m(2001, 1, 3 * qi)
+                    ps, pe = D(y, mo, 1), month_end(*add_m(y, mo, 2))
+                    for e in evs:
+                        if e >= pe:
+                            cells.append(CumulativeCell(period_start=ps, period_end=pe, evaluation_date=e, metadata=m,
+                                                        values={"paid_loss": float(rng.randint(0, 40000)) / 8.0,
+                                                                "earned_premium": float(rng.randint(0, 40000)) / 8.0}))
+            return dict(kind="aq", tri=Triangle(cells), flat=True, era="modern", policy_length_months=12,
+                        policy_year_origin=D(2020, 1, 1), continuous_issuance=True)
+        if name == "disagg-90-annual-periods-monthly":
+            # 90 annual periods split into months: more than 1024 distinct months in one call
+            cells = big_cells(n_slices=1, n_periods=90 * k2, n_evals=2, res=12, ev_step=12, start_year=1975,
+                              fields=("paid_loss", "earned_premium"), vseed=4)
+            return dict(kind="disagg", tri=Triangle(cells), res=1, weights=None, fields=None, how="ok", wtag="none", R=12)
+        if name == "premium-2400-months":
+            rng = np.random.RandomState(5)
+            return dict(kind="premium", premium_volume=2.0**20, writing_pattern=(rng.randint(0, 64, size=200 * k2) / 8.0 + 0.125).tolist(),
+                        writing_resolution=12, earning_pattern=(rng.randint(0, 64, size=30) / 8.0 + 0.125).tolist(),
+                        earning_resolution=3, output_resolution=12, output_offset=5, continuous_writing=True, style="float")
+    raise KeyError(name)
+
+
+LARGE_QUICK = ["convert-2140-cells-small-trailing-slices", "convert-2300-single-cell-slices", "aq-70-evaluation-dates",
+               "disagg-90-annual-periods-monthly", "premium-2400-months"]
+
+
+def large_convert_oracle(case, res):
+    if res[0] != "ok":
+        return [f"valid large input refused: {type(res[1]).__name__}: {res[1]}"]
+    tri, out = case["tri"], res[1]
+    if len(out) != len(tri):
+        return [f"cell count changed from {len(tri)} to {len(out)}"]
+    got = {}
+    for o in out.cells:
+        if o.metadata.currency != case["target"]:
+            return [f"output cell {coord_key(o)} carries currency {o.metadata.currency!r}"]
+        got.setdefault(coord_key(o), []).append(o)
+    for c in tri.cells:
+        rate = 1 if c.metadata.currency == case["target"] else case["rates"][c.metadata.currency]
+        os_ = got.get(coord_key(c), [])
+        if len(os_) != 1:
+            return [f"{len(os_)} output cells for input cell {coord_key(c)}"]
+        o = os_[0]
+        if set(o.values) != set(c.values) or dataclasses.replace(o.metadata, currency=c.metadata.currency) != c.metadata \
+                or o.metadata.details != c.metadata.details:
+            return [f"fields / metadata of cell {coord_key(c)} changed"]
+        for f, v in c.values.items():
+            want = v * rate if f in DOCUMENTED_CURRENCY_FIELDS else v
+            if not (o.values[f] == want and type(o.values[f]) is type(want)):
+                return [f"cell {coord_key(c)} ({c.metadata.currency} -> {case['target']}, rate {rate}) field {f}: "
+                        f"got {o.values[f]!r}, want {want!r}"]
+    return []
+
+
+def large_fails(case, res):
+    k = case["kind"]
+    if k == "convert":
+        return large_convert_oracle(case, res)
+    if k == "aq":
+        fails = oracle_aq(case, res)
+        if not fails and res[0] == "ok":
+            evs_in = {c.evaluation_date for c in case["tri"].cells}
+            evs_out = {c.evaluation_date for c in res[1].cells}
+            if evs_in != evs_out:
+                fails = [f"{len(evs_in)} evaluation dates in, {len(evs_out)} out"]
+        return fails
+    if k == "disagg":
+        fails, dropped = oracle_disagg(case, res)
+        if not fails and dropped:
+            fails = ["a cell was dropped"]
+        return fails or oracle_reaggregate(case, res)
+    return oracle_premium(case, res)
+
+
+EARLY_SMALL = {}
+
+
+def early_small_cases():
+    """fixed small inputs run before everything else and again after the large work"""
+    r = random.Random(4242)
+    return {"convert": gen_convert_currency_only(r), "disagg": gen_disagg(random.Random(7)), "aq": gen_aq(random.Random(8)),
+            "premium": gen_premium(random.Random(9))}
+
+
+def large_stream(ctx):
+    for name in LARGE_QUICK:
+        case = large_case(name, ctx.quick)
+        res = RUNNERS[case["kind"]](case)
+        fails = large_fails(case, res)
+        if not fails and canon_result(RUNNERS[case["kind"]](case)) != canon_result(res):
+            fails = ["the same call twice gives different results"]
+        ctx.count(evaluations=1)
+        ctx.hist(f"large:{name}", len(case["tri"]) if "tri" in case else len(case["writing_pattern"]))
+        ctx.nontriv(("large", name))
+        if fails:
+            ctx.violation("impl-violation", f"{case['kind']} (large case {name}): " + fails[0],
+                          {"large": name, "quick": ctx.quick, "case": None, "failures": fails[:5]}, found_input=True)
+    for kind, (case, res0) in EARLY_SMALL.items():
+        if canon_result(RUNNERS[kind](case)) != canon_result(res0):
+            ctx.violation("impl-violation", f"{kind}: an early small case gives a different result when repeated after the large work "
+                          "(state kept between calls)", {"case": case_json(case), "recheck": True, "quick": ctx.quick},
+                          found_input=True)
+    ctx.notes.append("large stream: %d big cases judged by Python-side oracles only (no Coq literals; the theorems are "
+                     "size-independent, the correspondence samples small cases)" % len(LARGE_QUICK))
 
 
 GAPPED = {"kind": "disaggregate_gapped_periods_resolution"}
@@ -1488,6 +1631,22 @@ def probe_candidates(ctx):
 
 
 def replay(ctx, data):
+    if data.get("recheck"):
+        case = case_from_json(data["case"])
+        r0 = canon_result(RUNNERS[case["kind"]](case))
+        for name in LARGE_QUICK:
+            lc = large_case(name, data.get("quick", True))
+            RUNNERS[lc["kind"]](lc)
+        same = canon_result(RUNNERS[case["kind"]](case)) == r0
+        print("small case before / after the large work:", "identical" if same else "DIFFERENT")
+        return 0 if same else 1
+    if data.get("large"):
+        lc = large_case(data["large"], data.get("quick", True))
+        fails = large_fails(lc, RUNNERS[lc["kind"]](lc))
+        print("large case", data["large"])
+        for f in fails[:5]:
+            print("  FAIL:", f)
+        return 1 if fails else 0
     if data.get("probe") == "hardening":
         from harness.common import Ctx
 
